@@ -293,11 +293,13 @@ def _m(t, r, out, need):
         _m_inner(t, r, out)
 
 
-def _m_args(args, r, out):
+def _m_args(args, r, out, call=False):
     for i, x in enumerate(args):
         if i:
             out.append(',')
         _m(x, r, out, -1)
+    if call and args and r.random() < 0.08:
+        out.append(',')     # trailing comma after the last argument of a call (accepted by the grammar for every call form)
 
 
 def _m_inner(t, r, out):
@@ -377,14 +379,14 @@ def _m_inner(t, r, out):
         if sugar == 'plain' or not args:
             out.append(f)
             out.append('(')
-            _m_args(args, r, out)
+            _m_args(args, r, out, call=True)
             out.append(')')
         elif sugar == 'method':
             _m(args[0], r, out, _P_DOT)
             out.append('.')
             out.append(f)
             out.append('(')
-            _m_args(args[1:], r, out)
+            _m_args(args[1:], r, out, call=True)
             out.append(')')
         elif sugar in ('pipe', 'pipebare'):
             _m(args[0], r, out, _P_PIPE)
@@ -392,7 +394,7 @@ def _m_inner(t, r, out):
             out.append(f)
             if len(args) > 1:
                 out.append('(')
-                _m_args(args[1:], r, out)
+                _m_args(args[1:], r, out, call=True)
                 out.append(')')
         else:
             raise ValueError(sugar)
